@@ -90,6 +90,7 @@ let parse_case (line : string) : case =
         | None ->
           (match words p with
            | ("enum" | "enumall" | "first" | "min" | "max") :: _ as e -> entry := e
+           | ["prod"] -> ()   (* production configuration flag: concerns the implementation run only *)
            | _ -> failwith ("bad post " ^ p))) rest;
     { prog = parse_decls decls @ List.rev !posts; entry = !entry }
 
